@@ -35,14 +35,18 @@ try:
                   'ALWAYS pseudo-file': 'present, may be a dependency'})
     chk.assumptions += depscheck.ASSUMPTIONS
     from specs.dbmodel import S_MISSING
-    depscheck.kernel_agreement(chk, N, E, goals=True, world_kw={'always_stamps': (None, S_MISSING)})
-    depscheck.validate_kernel(chk, rep, n=(60 if chk.thorough() else 24))
-    orchestration.unlocked_reevaluates(chk)
-    from specs import buildjob, buildworld
-    buildworld.install(eng)
-    chk.assumptions += buildjob.ASSUMPTIONS
-    buildjob.record_new_state_facts(chk, 'C01')
-    buildjob.job_completion_blocks(chk, 'C01')
+    only = os.environ.get('VERIF_OBL')          # development aid: run a subset of the obligations
+    if not only or 'kernel' in only:
+        depscheck.kernel_agreement(chk, N, E, goals=True, world_kw={'always_stamps': (None, S_MISSING)})
+        depscheck.validate_kernel(chk, rep, n=(60 if chk.thorough() else 24))
+    if not only or 'unlocked' in only:
+        orchestration.unlocked_reevaluates(chk)
+    if not only or 'record' in only:
+        from specs import buildjob, buildworld
+        buildworld.install(eng)
+        chk.assumptions += buildjob.ASSUMPTIONS
+        buildjob.record_new_state_facts(chk, 'C01')
+        buildjob.job_completion_blocks(chk, 'C01')
     chk.finish(depscheck.make_replay(chk, rep, scn))
 finally:
     rep.cleanup()
